@@ -189,8 +189,8 @@ theorem lookup_erase (m : List (Tag × Digest)) (t x : Tag) :
         simp [h3, this]
       · simp only [h3, decide_false]; exact ih
 
-theorem addBegin_stored (r : Retry.State) (k : Key) (h : (Retry.stepO r (.addBegin k 0)).2 ≠ .closed) :
-    k ∈ Retry.keys (Retry.stepO r (.addBegin k 0)).1.rows := by
+theorem addBegin_stored (r : Retry.State) (k : Key) (h : (Retry.stepO r (.addBegin k 0 [])).2 ≠ .closed) :
+    k ∈ Retry.keys (Retry.stepO r (.addBegin k 0 [])).1.rows := by
   simp only [Retry.stepO] at h ⊢
   cases hm : r.mode <;> simp only [hm] at h ⊢
   · by_cases hh : Retry.hasKey r.rows k = true
@@ -271,10 +271,10 @@ theorem step_inv (s : State) (o : Op) (h : Inv s) : Inv (step s o) := by
           rcases h.okPut x hx with a | ⟨a, b, _, c⟩
           · exact Or.inl a
           · exact Or.inr ⟨isSome_of_stable hdisk x a, (mem_ins _ _ _).mpr (Or.inr b), rfl, hr' x c⟩
-        cases ha : Retry.stepO s.r (.addBegin t 0) with
+        cases ha : Retry.stepO s.r (.addBegin t 0 []) with
         | mk r1 o1 =>
-          have hr1 : r1 = (Retry.stepO s.r (.addBegin t 0)).1 := by rw [ha]
-          have ho1 : o1 = (Retry.stepO s.r (.addBegin t 0)).2 := by rw [ha]
+          have hr1 : r1 = (Retry.stepO s.r (.addBegin t 0 [])).1 := by rw [ha]
+          have ho1 : o1 = (Retry.stepO s.r (.addBegin t 0 [])).2 := by rw [ha]
           have hclosed : Inv { s with disk := writeDisk s.disk t d, persist := ins s.persist t, putFor := s.putFor ++ [(t, d)] } := by
             refine ⟨h.good, hput, hbput, hflag0, ?_⟩
             intro x hx
@@ -284,7 +284,7 @@ theorem step_inv (s : State) (o : Op) (h : Inv s) : Inv (step s o) := by
             intro x hx
             apply kept _ _ _ _ (by simp) (by intro inv h; cases h)
             rw [hr1]
-            exact kept s.r (.addBegin t 0) x hx (by simp) (by intro inv h; cases h)
+            exact kept s.r (.addBegin t 0 []) x hx (by simp) (by intro inv h; cases h)
           have hacc : o1 ≠ .closed → Inv { s with disk := writeDisk s.disk t d, persist := ins s.persist t, putFor := s.putFor ++ [(t, d)], r := Retry.step r1 (.addEnq t), okPut := ins s.okPut t } := by
             intro hne
             refine ⟨Retry.step_good _ _ (hr1 ▸ Retry.step_good _ _ h.good), hput, hbput, hflag0, ?_⟩
@@ -880,10 +880,10 @@ theorem eventually_written_back (cfg : Retry.Config) (hc : Retry.WFCfg cfg) (ops
         cases checkDeps deps <;> simp only <;> try rfl
         split
         · split <;> rfl
-        · cases ha : Retry.stepO s.r (.addBegin t 0) with
+        · cases ha : Retry.stepO s.r (.addBegin t 0 []) with
           | mk r1 o1 =>
             have hr1 : r1.cfg = s.r.cfg := by
-              have := e1 s.r (.addBegin t 0); simp only [Retry.step, ha] at this; exact this
+              have := e1 s.r (.addBegin t 0 []); simp only [Retry.step, ha] at this; exact this
             cases o1 <;> simp only <;> first | rfl | (rw [e1]; exact hr1)
       | get t up => simp only [step, stepO]; (repeat' split) <;> rfl
       | retry o =>
